@@ -60,6 +60,26 @@ pub fn enumerate(a: &Ast, fam: Fam) -> Vec<Mal> {
     let hl = e.header_len;
     let tn = spec::lib_type_name(t);
 
+    // Every malformation is a full copy of the frame: for multi-megabyte packets only a handful
+    // of header-level ones are produced (the generator once spent minutes and tens of GiB here).
+    if e.bytes.len() > 300_000 {
+        let mut f = canon.bytes.clone();
+        f[0] = if t == 3 { f[0] | 0x06 } else { f[0] & 0x0F };
+        out.push(Mal {
+            name: if t == 3 { "publish-qos3" } else { "header-flags" },
+            site: "large packet".into(),
+            frame: f,
+            expect: Expect::All(if t == 3 { "InvalidQos(3)".into() } else { "InvalidHeader".into() }),
+        });
+        if let Some(s) = e.spans.iter().find(|s| s.kind == SK::Pid) {
+            let mut f = e.bytes.clone();
+            f[s.off] = 0;
+            f[s.off + 1] = 0;
+            out.push(Mal { name: "zero-pid", site: format!("@{}", s.off), frame: f, expect: Expect::All("ZeroPid".into()) });
+        }
+        return out;
+    }
+
     // 1. illegal type nibble / flags
     {
         let mut firsts: Vec<u8> = vec![e.bytes[0] & 0x0F]; // type 0
